@@ -33,11 +33,15 @@ type Case struct {
 	// Stale: the outermost wrapper's function is DEFINED by an earlier run of the same
 	// environment (vm.Execute, background context) and only CALLED by the cancellable run
 	Stale bool `json:"stale,omitempty"`
+	// Tail: no statement follows the core at any level (no sentinel probes, no closing probe):
+	// nothing polls the context after the interrupted construct, so an interruption that the
+	// construct drops shows as a nil / wrong error of the whole run
+	Tail bool `json:"tail,omitempty"`
 }
 
 var spinCores = []string{"loop", "loop_cond", "cfor", "cfor_nocond", "forin_nested", "forin_map", "recursion", "loop_in_switch", "loop_nested_break", "loop_continue", "fanout_range", "fanout_recv", "fanout_recv2", "pipeline_relay"}
-var blockCores = []string{"recv", "send", "recv2", "range_chan", "recv_stmt", "drain_two", "drain_three"}
-var wrappers = []string{"fn0", "fn2", "fn4", "fn5", "fnvar", "anon", "go_join", "go_join5", "try_body", "catch", "finally", "coalesce_l", "coalesce_r", "ternary", "deferred", "list_elem", "go_arg", "module", "if", "switch_case", "forin_once", "callback"}
+var blockCores = []string{"recv", "send", "recv2", "range_chan", "recv_stmt", "drain_two", "drain_three", "forward_blocked", "forward_full"}
+var wrappers = []string{"fn0", "fn2", "fn4", "fn5", "fnvar", "anon", "go_join", "go_join5", "try_body", "catch", "finally", "coalesce_l", "coalesce_r", "ternary", "deferred", "list_elem", "go_arg", "module", "if", "switch_case", "forin_once", "try_empty_catch", "try_empty_catch_e", "try_empty_finally", "deferred_implicit", "deferred_top", "deferred_twice", "return_call", "callback"}
 
 func gen(t *rapid.T) Case {
 	c := Case{Procs: 0}
@@ -56,6 +60,7 @@ func gen(t *rapid.T) Case {
 	c.DelayUs = rapid.SampledFrom([]int{0, 1, 10, 50, 200, 1000, 2000}).Draw(t, "delay")
 	c.Procs = rapid.SampledFrom([]int{0, 0, 1, 2, 4}).Draw(t, "procs")
 	c.Stale = rapid.IntRange(0, 3).Draw(t, "stale") == 0
+	c.Tail = rapid.IntRange(0, 2).Draw(t, "tail") == 0
 	return c
 }
 
@@ -106,6 +111,11 @@ func coreSrc(core string) string {
 		return "wch = make(chan int64, 3)\ngo func() {\n for {\n  wch <- 1\n }\n}()\ngo func() {\n for wv in wch {\n }\n}()\nentered()\nfor wv in wch {\n}"
 	case "drain_three":
 		return "wch = make(chan int64, 2)\ngo func() {\n for {\n  wch <- 1\n }\n}()\ngo func() {\n for wv in wch {\n }\n}()\ngo func() {\n for wv in wch {\n }\n}()\nentered()\nfor wv in wch {\n}"
+	case "forward_blocked":
+		// channel-to-channel send: the value is received from fa, the send half blocks
+		return "fa = make(chan int64, 1)\nfa <- 1\nentered()\nnever <- fa"
+	case "forward_full":
+		return "fa = make(chan int64, 4)\nfb = make(chan int64, 1)\nfa <- 1\nfa <- 2\nfa <- 3\nentered()\nfor {\n fb <- fa\n}"
 	case "recv":
 		return "entered()\nbv = <-never"
 	case "send":
@@ -128,9 +138,12 @@ var sentinel int64 = 1000
 
 // wrap puts body (statements) inside wrapper w and appends a sentinel probe that must
 // never run once the context is cancelled.
-func wrap(w string, body string, level int) string {
+func wrap(w string, body string, level int, tail bool) string {
 	fn := fmt.Sprintf("w%d", level)
 	sent := fmt.Sprintf("\np(%d)", sentinel+int64(level))
+	if tail {
+		sent = ""
+	}
 	def := func(params string) string {
 		return "func " + fn + "(" + params + ") {\n" + indent(body) + sent + "\n return 1\n}\n"
 	}
@@ -177,6 +190,20 @@ func wrap(w string, body string, level int) string {
 		return "switch 2 {\ncase 1:" + sent + "\ncase 2:\n" + indent(body) + sent + "\ndefault:" + sent + "\n}" + sent
 	case "forin_once":
 		return "for once in [1] {\n" + indent(body) + sent + "\n}" + sent
+	case "try_empty_catch":
+		return def("") + "try {\n " + fn + "()\n} catch {\n}" + sent
+	case "try_empty_catch_e":
+		return def("") + "try {\n " + fn + "()\n} catch e {\n}" + sent
+	case "try_empty_finally":
+		return def("") + "try {\n " + fn + "()\n} catch e {\n} finally {\n}" + sent
+	case "deferred_implicit":
+		return def("") + "func() {\n defer " + fn + "()\n}()" + sent
+	case "deferred_top":
+		return def("") + "defer " + fn + "()" + sent
+	case "deferred_twice":
+		return def("") + "func() {\n defer id(1)\n defer " + fn + "()\n defer id(2)\n return 2\n}()" + sent
+	case "return_call":
+		return def("") + "func() {\n return " + fn + "()\n}()" + sent
 	case "callback":
 		return def("") + "call(" + fn + ")" + sent
 	}
@@ -186,9 +213,34 @@ func wrap(w string, body string, level int) string {
 func source(c Case) string {
 	body := coreSrc(c.Core)
 	for i, w := range c.Wrappers {
-		body = wrap(w, body, i+1)
+		if w == "deferred_top" && deferFrameIsGoroutine(c.Wrappers[i+1:]) {
+			// a defer statement whose function frame is the joined goroutine's would run after the
+			// goroutine has signalled completion: the main flow legitimately carries on (and may end
+			// the run) while the deferred core is still active. Rendered with its own frame instead.
+			w = "deferred"
+		}
+		body = wrap(w, body, i+1, c.Tail)
+	}
+	if c.Tail {
+		return body + "\n"
 	}
 	return body + "\np(999)\n"
+}
+
+// deferFrameIsGoroutine reports whether the nearest enclosing wrapper that opens a function
+// frame (outer lists the enclosing wrappers, nearest first) is a joined goroutine.
+func deferFrameIsGoroutine(outer []string) bool {
+	for _, w := range outer {
+		switch w {
+		case "try_body", "catch", "finally", "module", "if", "switch_case", "forin_once":
+			continue
+		case "go_join", "go_join5":
+			return true
+		default:
+			return false
+		}
+	}
+	return false
 }
 
 // sourceParts splits the program into the definition of the outermost wrapper's function
@@ -369,6 +421,9 @@ func oracle(c Case, o *h.Obs) *h.Fail {
 		}
 	}
 	o.Class(fmt.Sprintf("depth_%d", len(c.Wrappers)))
+	if c.Tail {
+		o.Class("tail_position_nothing_follows_the_core")
+	}
 	if c.Stale {
 		if _, _, ok := sourceParts(c); ok {
 			o.Class("function_defined_by_an_earlier_run_" + c.Wrappers[len(c.Wrappers)-1])
@@ -442,5 +497,5 @@ func TestC02(t *testing.T) {
 	defer c.Finish()
 	ctxRef = c
 	c.Rule("program = core wrapped in 0..3 constructs; cores: for{}, for cond{}, C-style loops, nested for-in over slices/maps, recursion, loops in switch / with break / continue, buffered channels fed by a spinning producer goroutine and drained by two consumers (for-in, receive, two-value receive) or relayed through a second channel (spinning), blocked receive / send / two-value receive / range over a channel nobody serves; wrappers: script functions of arity 0,2,4 (direct path), 5 and variadic (reflect path), anonymous call, go + join (both go paths), try body / catch / finally, ?? on either side, ternary, deferred call, list element, Go-call argument, module body, if, switch case, for-in body; every level is followed by a sentinel probe. cancel: mode A from inside the k-th tick() host call, mode B asynchronously d microseconds after the core was entered; GOMAXPROCS in {default,1,2,4}; in a quarter of the cases the outermost function is defined by an earlier run (background context) of the same environment and only called by the cancellable run. non-trivial = at least one wrapper and the cancel landed while the core was active; distinct = (source, mode, k, delay, procs). The callback wrapper (script function converted to a Go func) is the known finding F-callback-ctx: excluded from generation, reproduced from a committed replay")
-	h.Run(c, "cancel", c.N(2500, 30000), gen, oracle)
+	h.Run(c, "cancel", c.N(6000, 30000), gen, oracle)
 }
